@@ -72,8 +72,13 @@ pub struct PropSpec {
 pub fn verif_dir() -> PathBuf {
     std::env::var("VERIF_DIR").map(PathBuf::from).unwrap_or_else(|_| PathBuf::from("/verif"))
 }
+/// where scratch output and evidence go: /verif, unless a sensitivity run redirects it
+/// (VERIF_OUT is only ever set by tools/seed_matrix.sh, never by a registered command)
+pub fn write_root() -> PathBuf {
+    std::env::var("VERIF_OUT").map(PathBuf::from).unwrap_or_else(|_| verif_dir())
+}
 pub fn out_dir() -> PathBuf {
-    let d = verif_dir().join("out");
+    let d = write_root().join("out");
     let _ = std::fs::create_dir_all(d.join("failures"));
     d
 }
@@ -706,7 +711,7 @@ pub fn run_parent(spec: &PropSpec, args: &RunArgs) -> i32 {
         "wall_s": t0.elapsed().as_secs_f64(),
         "violations": violations.len(),
     });
-    let edir = verif_dir().join("evidence");
+    let edir = write_root().join("evidence");
     let _ = std::fs::create_dir_all(&edir);
     std::fs::write(edir.join(format!("{id}.json")), serde_json::to_string_pretty(&ev).unwrap()).unwrap();
 
